@@ -7,25 +7,26 @@ Import ListNotations.
 Record Num (T : Type) := {
   n0 : T; n1 : T; n2 : T;
   nadd : T -> T -> T; nsub : T -> T -> T; nmul : T -> T -> T; ndiv : T -> T -> T;
-  nleb : T -> T -> bool; nltb : T -> T -> bool;
+  nleb : T -> T -> bool; nltb : T -> T -> bool; neqb : T -> T -> bool;
   nabs : T -> T;
 }.
 Arguments n0 {T}. Arguments n1 {T}. Arguments n2 {T}.
 Arguments nadd {T}. Arguments nsub {T}. Arguments nmul {T}. Arguments ndiv {T}.
-Arguments nleb {T}. Arguments nltb {T}. Arguments nabs {T}.
+Arguments nleb {T}. Arguments nltb {T}. Arguments neqb {T}. Arguments nabs {T}.
 
 Definition Rleb (a b : R) : bool := if Rle_dec a b then true else false.
 Definition Rltb (a b : R) : bool := if Rlt_dec a b then true else false.
+Definition Reqb (a b : R) : bool := if Req_EM_T a b then true else false.
 
 Definition NumR : Num R := {|
   n0 := 0%R; n1 := 1%R; n2 := 2%R;
   nadd := Rplus; nsub := Rminus; nmul := Rmult; ndiv := Rdiv;
-  nleb := Rleb; nltb := Rltb; nabs := Rabs |}.
+  nleb := Rleb; nltb := Rltb; neqb := Reqb; nabs := Rabs |}.
 
 Definition NumF : Num float := {|
   n0 := 0%float; n1 := 1%float; n2 := 2%float;
   nadd := PrimFloat.add; nsub := PrimFloat.sub; nmul := PrimFloat.mul; ndiv := PrimFloat.div;
-  nleb := PrimFloat.leb; nltb := PrimFloat.ltb; nabs := PrimFloat.abs |}.
+  nleb := PrimFloat.leb; nltb := PrimFloat.ltb; neqb := PrimFloat.eqb; nabs := PrimFloat.abs |}.
 
 Section Derived.
   Context {T : Type} (N : Num T).
